@@ -204,7 +204,7 @@ def generate(sag, rng):
     from gbigsmiles import AtomGraph
 
     ag = AtomGraph(sag, rng=rng)
-    with time_limit(120):
+    with time_limit(12):
         with steps.line_budget(LINE_BUDGET):
             ag.generate()
     return ag
